@@ -51,14 +51,22 @@ LocalsOf(c) == IF c.loabs = 1 THEN {Fold(c.me)} ELSE {Fold(c.lo[n]) : n \in 1..L
 PctOf(c)    == {Fold(c.ph[n]) : n \in 1..Len(c.ph)}
 EnvOf(c)    == IF c.envabs = 1 THEN c.me ELSE c.env
 
-DupIn(keys) == \E m, n \in 1..Len(keys) : m # n /\ Fold(keys[m]) = Fold(keys[n])
+DupIn(keys) == Cardinality({Fold(keys[n]) : n \in 1..Len(keys)}) # Len(keys)
 DupKeys(c)  == DupIn(c.lo) \/ DupIn(c.ph) \/ DupIn([n \in 1..Len(c.vd) |-> c.vd[n].k])
+
+(***************************************************************************)
+(* The rules a configuration stands for: defaults applied, everything that *)
+(* is matched folded to lower case (computed once per message).            *)
+(***************************************************************************)
+Rules(c) == [lo |-> LocalsOf(c), ph |-> PctOf(c), env |-> EnvOf(c),
+             vk |-> {Fold(c.vd[e].k) : e \in 1..Len(c.vd)},                                   \* the keys
+             vd |-> [e \in 1..Len(c.vd) |-> [k |-> Fold(c.vd[e].k), t |-> c.vd[e].t]]]
 
 (***************************************************************************)
 (* "If qmail-send sees an envelope recipient address without an @ sign, it *)
 (* appends @envnoathost."                                                  *)
 (***************************************************************************)
-DefaultHost(c, r) == IF Has(r, AT) THEN r ELSE r \o <<AT>> \o EnvOf(c)
+DefaultHost(R, r) == IF Has(r, AT) THEN r ELSE r \o <<AT>> \o R.env
 
 (***************************************************************************)
 (* "If domain is listed in percenthack, any address of the form            *)
@@ -76,45 +84,42 @@ DefaultHost(c, r) == IF Has(r, AT) THEN r ELSE r \o <<AT>> \o EnvOf(c)
 (* other addresses the result is unique.                                   *)
 (***************************************************************************)
 RECURSIVE PctResults(_, _)
-PctResults(c, a) ==
+PctResults(R, a) ==
   LET l == Loc(a)
-  IN IF Fold(Dom(a)) \notin PctOf(c) \/ ~Has(l, PCT) THEN {a}
+  IN IF Fold(Dom(a)) \notin R.ph \/ ~Has(l, PCT) THEN {a}
      ELSE LET p    == MaxOf(Pos(l, PCT))
               user == SubSeq(l, 1, p - 1)
               fqdn == SubSeq(l, p + 1, Len(l))
               b    == user \o <<AT>> \o fqdn
-          IN IF Has(fqdn, AT) THEN {a, b} \cup PctResults(c, b) ELSE PctResults(c, b)
+          IN IF Has(fqdn, AT) THEN {a, b} \cup PctResults(R, b) ELSE PctResults(R, b)
 
 (***************************************************************************)
-(* virtualdomains.  An entry applies to an address when its key is the     *)
-(* whole address (virtual user), the domain part (virtual domain), a       *)
-(* wildcard: a key starting with a dot that is a tail of the domain part,  *)
-(* or the empty key (catch-all).  The most specific applicable entry       *)
-(* decides; "full address, then domain, then successively shorter          *)
-(* wildcards, then catch-all" is, for keys that are all tails of one       *)
-(* address, simply "the longest applicable key".  An entry with an empty   *)
-(* prepend is an exception: the address is not virtual.                    *)
+(* virtualdomains.  The keys that apply to an address: the whole address   *)
+(* (virtual user), the domain part (virtual domain), every tail of the     *)
+(* domain part that starts with a dot (wildcards), the empty key           *)
+(* (catch-all).  The most specific key that is listed decides; "full       *)
+(* address, then domain, then successively shorter wildcards, then         *)
+(* catch-all" is, for keys that are all tails of one address, simply "the  *)
+(* longest".  An entry with an empty prepend is an exception: the address  *)
+(* is not virtual.                                                         *)
 (***************************************************************************)
-KeyApplies(key, a) ==
-  LET x == Fold(key)
-      d == Fold(Dom(a))
-  IN \/ x = Fold(a)
-     \/ x = d
-     \/ Len(x) > 0 /\ x[1] = DOT /\ IsSuffix(x, d)
-     \/ x = <<>>
-Applicable(c, a) == {e \in 1..Len(c.vd) : KeyApplies(c.vd[e].k, a)}
-MostSpecific(c, a) == CHOOSE e \in Applicable(c, a) : \A f \in Applicable(c, a) : Len(c.vd[f].k) <= Len(c.vd[e].k)
+DotTails(d) == {LastN(d, m) : m \in {x \in 1..Len(d) : d[Len(d) - x + 1] = DOT}}
+ApplicableKeys(a) == {Fold(a), Fold(Dom(a)), <<>>} \cup DotTails(Fold(Dom(a)))
+Longest(K) == CHOOSE x \in K : \A y \in K : Len(y) <= Len(x)
+TagOf(R, key) == R.vd[CHOOSE e \in 1..Len(R.vd) : R.vd[e].k = key].t
 
 \* ch = 0: local, ch = 1: remote; a = the address as written to local/ or remote/
 \* "percenthack before locals", "virtualdomains after locals: if a domain is listed in locals, virtualdomains does not apply"
-RouteFinal(c, a) ==
-  IF Fold(Dom(a)) \in LocalsOf(c) THEN [ch |-> 0, a |-> a]
-  ELSE IF Applicable(c, a) = {} THEN [ch |-> 1, a |-> a]
-  ELSE LET t == c.vd[MostSpecific(c, a)].t
-       IN IF t = <<>> THEN [ch |-> 1, a |-> a] ELSE [ch |-> 0, a |-> t \o <<DASH>> \o a]
+RouteFinal(R, a) ==
+  IF Fold(Dom(a)) \in R.lo THEN [ch |-> 0, a |-> a]
+  ELSE LET K == {x \in ApplicableKeys(a) : x \in R.vk}
+       IN IF K = {} THEN [ch |-> 1, a |-> a]
+          ELSE LET t == TagOf(R, Longest(K))
+               IN IF t = <<>> THEN [ch |-> 1, a |-> a] ELSE [ch |-> 0, a |-> t \o <<DASH>> \o a]
 
 \* the set of acceptable outcomes for recipient r (a singleton except for the open reading above)
-Route(c, r) == {RouteFinal(c, a) : a \in PctResults(c, DefaultHost(c, r))}
+RouteR(R, r) == {RouteFinal(R, a) : a \in PctResults(R, DefaultHost(R, r))}
+Route(c, r)  == RouteR(Rules(c), r)
 
 (***************************************************************************)
 (* Monitor for one preprocessed message: rc = the recipients of the        *)
@@ -125,9 +130,9 @@ Route(c, r) == {RouteFinal(c, a) : a \in PctResults(c, DefaultHost(c, r))}
 (* recipient is the first that is not where and what Route says.           *)
 (***************************************************************************)
 RECURSIVE FirstBad(_, _, _, _, _, _, _)
-FirstBad(c, rc, lo, re, n, il, ir) ==
+FirstBad(c, rc, lo, re, n, il, ir) ==          \* c: Rules of the configuration
   IF n > Len(rc) THEN 0
-  ELSE LET R   == Route(c, rc[n])
+  ELSE LET R   == RouteR(c, rc[n])
            okL == il <= Len(lo) /\ [ch |-> 0, a |-> lo[il]] \in R
            okR == ir <= Len(re) /\ [ch |-> 1, a |-> re[ir]] \in R
        IN IF okL /\ okR
@@ -137,9 +142,25 @@ FirstBad(c, rc, lo, re, n, il, ir) ==
           ELSE IF okR THEN FirstBad(c, rc, lo, re, n + 1, il, ir + 1)
           ELSE n
 
+\* Same verdict, evaluated without recursion in the common case that every recipient has exactly one
+\* acceptable outcome: the two lists are then simply the local and the remote outcomes in envelope order.
+\* (T is the tuple of the Route sets; the one-element sets in the two operators below only make TLC
+\* evaluate Rules(c) and T once instead of once per use.)
+Judge(R, rc, lo, re, T) ==
+  IF SelectSeq(T, LAMBDA S : Cardinality(S) # 1) = <<>>
+    THEN LET one == [n \in 1..Len(T) |-> CHOOSE x \in T[n] : TRUE]
+             L   == SelectSeq(one, LAMBDA x : x.ch = 0)
+             M   == SelectSeq(one, LAMBDA x : x.ch = 1)
+         IN IF lo = [n \in 1..Len(L) |-> L[n].a] /\ re = [n \in 1..Len(M) |-> M[n].a] THEN 0
+            ELSE FirstBad(R, rc, lo, re, 1, 1, 1)
+    ELSE FirstBad(R, rc, lo, re, 1, 1, 1)
+
+JudgeR(R, rc, lo, re) ==
+  CHOOSE x \in {Judge(R, rc, lo, re, T) : T \in {SelectSeq([n \in 1..Len(rc) |-> RouteR(R, rc[n])], LAMBDA S : TRUE)}} : TRUE
+
 MsgVerdict(c, rc, lo, re) ==
   IF Len(lo) + Len(re) # Len(rc) THEN "RecipientCount"
-  ELSE LET b == FirstBad(c, rc, lo, re, 1, 1, 1)
+  ELSE LET b == CHOOSE x \in {JudgeR(R, rc, lo, re) : R \in {Rules(c)}} : TRUE
        IN IF b = 0 THEN "" ELSE "Route:" \o ToString(b)
 
 (***************************************************************************)
